@@ -5,7 +5,7 @@
 From Coq Require Import NArith ZArith Arith List Bool String Lia.
 Import ListNotations.
 From Molli Require Import Model.UKV Model.MiniPy Model.Backend Model.MiniPyB Gen.UKVCode Gen.BackendCode
-  Proofs.UKVBase Proofs.UKVCode Proofs.MiniPyFrame Proofs.BackendCode Proofs.BackendBuffer.
+  Proofs.UKVBase Proofs.UKVCode Proofs.MiniPyFrame Proofs.BackendCode Proofs.BackendBuffer Proofs.BackendMode.
 Open Scope string_scope.
 Open Scope N_scope.
 
@@ -156,9 +156,11 @@ Lemma enter_body_code fuel (m : mode) begin_prog (x : sess) fin s f b hh1 hh2 bb
   (has_uk b = false -> uk b = h0) -> (forall k, last (uk b) = Some k -> lookup (toc (uk b)) k <> None) ->
   let '(s', o) := bexec fuel (BSeq (BSeq (BCall begin_prog) (BSetState x)) (BTryReraise (BCall update_keys_prog) fin)) s in
   let '(f', h') := open_ f (uk b) m in
-  o = BONormal /\ BRep s' f' (mkb h' true (queue b) (keys h') (used b) (bufsize b) (ro b) x) /\ bheld s' = bheld s.
+  o = BONormal /\ BRep s' f' (mkb h' true (queue b) (keys h') (used b) (bufsize b) (ro b) x) /\ bheld s' = bheld s /\
+  ((has_inner s = true -> has_mode s) -> has_mode s').
 Proof.
   intros Eb Hfuel R Hf L1 L2 L0 Hh0 Hin.
+  pose proof (begin_mode fuel m begin_prog s Eb) as BM.
   pose proof (begin_code fuel m begin_prog s f b hh1 hh2 bb0 rest Eb Hfuel R Hf L1 L2 L0 Hh0 Hin) as B.
   assert (NL : no_lock begin_prog = true) by (subst begin_prog; reflexivity).
   pose proof (bexec_held fuel begin_prog s NL) as Hl.
@@ -170,8 +172,10 @@ Proof.
   pose proof (brep_sess _ _ _ x R2) as R3.
   assert (Hh3 : has_uk (set_st (opened b h') x) = true) by reflexivity.
   rewrite bexec_tryre, (update_keys_code fuel _ _ _ R3 Hh3).
-  split; [reflexivity|]. split; [exact (brep_keys _ _ _ R3 Hh3)|].
-  cbn [bheld set_sess s2 restore_loc]. exact Hl.
+  split; [reflexivity|]. split; [exact (brep_keys _ _ _ R3 Hh3)|]. split.
+  - cbn [bheld set_sess s2 restore_loc]. exact Hl.
+  - intros Hm. specialize (BM Hm). cbn [fst] in BM. unfold has_mode in *. cbn [inner set_sess s2 restore_loc].
+    apply BM. rewrite (br_has _ _ _ B2). reflexivity.
 Qed.
 
 Theorem reading_enter_code fuel s f b hh1 hh2 bb0 rest :
@@ -181,7 +185,7 @@ Theorem reading_enter_code fuel s f b hh1 hh2 bb0 rest :
   bheld s = None ->
   let '(s', o) := bexec fuel reading_enter_prog s in
   let '(f', b', r) := b_begin_r f b in
-  o = BONormal /\ r = BOk /\ BRep s' f' b' /\ bheld s' = Some false.
+  o = BONormal /\ r = BOk /\ BRep s' f' b' /\ bheld s' = Some false /\ ((has_inner s = true -> has_mode s) -> has_mode s').
 Proof.
   intros Hfuel R Hf L1 L2 L0 Hh0 Hin Hl. unfold reading_enter_prog, b_begin_r.
   rewrite bexec_seq, (bexec_acquire fuel false s Hl). cbv beta iota.
@@ -190,7 +194,7 @@ Proof.
   pose proof (enter_body_code fuel MR begin_read_prog SReading (BSeq (BCall end_read_prog) (BSetState SIdle))
                 (set_held s (Some false)) f b hh1 hh2 bb0 rest eq_refl Hfuel R1 Hf L1 L2 L0 Hh0 Hin) as E.
   destruct (bexec fuel _ (set_held s (Some false))) as [s1 o1]. destruct (open_ f (uk b) MR) as [f' h'].
-  destruct E as [E1 [E2 E3]]. subst o1. cbv beta iota. split; [reflexivity|split; [reflexivity|split; [exact E2|exact E3]]].
+  destruct E as [E1 [E2 [E3 E4]]]. subst o1. cbv beta iota. split; [reflexivity|split; [reflexivity|split; [exact E2|split; [exact E3|exact E4]]]].
 Qed.
 
 Theorem writing_enter_code fuel s f b hh1 hh2 bb0 rest :
@@ -200,11 +204,12 @@ Theorem writing_enter_code fuel s f b hh1 hh2 bb0 rest :
   bheld s = None ->
   let '(s', o) := bexec fuel writing_enter_prog s in
   let '(f', b', r) := b_begin_w f b in
-  o = bout_of_res r /\ BRep s' f' b' /\ bheld s' = (if ro b then None else Some true).
+  o = bout_of_res r /\ BRep s' f' b' /\ bheld s' = (if ro b then None else Some true) /\
+  ((has_inner s = true -> has_mode s) -> has_inner s' = true -> has_mode s').
 Proof.
   intros Hfuel R Hf L1 L2 L0 Hh0 Hin Hl. unfold writing_enter_prog, b_begin_w.
   rewrite !bexec_seq, bexec_if. cbn [beval_bool]. rewrite (br_ro _ _ _ R). destruct (ro b) eqn:Ero.
-  - cbn [bexec bout_of_res]. split; [reflexivity|]. split; [exact R|exact Hl].
+  - cbn [bexec bout_of_res]. split; [reflexivity|]. split; [exact R|]. split; [exact Hl|]. intros Hm Hi. exact (Hm Hi).
   - change (bexec fuel BSkip s) with (s, BONormal). cbv beta iota. rewrite (bexec_acquire fuel true s Hl). cbv beta iota.
     pose proof (brep_held s f b (Some true) R) as R1.
     rewrite bexec_tryre.
@@ -212,13 +217,11 @@ Proof.
                   (BTryFinally (BCall flush_prog) (BSeq (BCall end_write_prog) (BSetState SIdle)))
                   (set_held s (Some true)) f b hh1 hh2 bb0 rest eq_refl Hfuel R1 Hf L1 L2 L0 Hh0 Hin) as E.
     destruct (bexec fuel _ (set_held s (Some true))) as [s1 o1]. destruct (open_ f (uk b) MA) as [f' h'].
-    destruct E as [E1 [E2 E3]]. subst o1. cbv beta iota. rewrite Ero in E2. split; [reflexivity|split; [exact E2|exact E3]].
+    destruct E as [E1 [E2 [E3 E4]]]. subst o1. cbv beta iota. rewrite Ero in E2. split; [reflexivity|split; [exact E2|split; [exact E3|]]].
+    intros Hm _. exact (E4 Hm).
 Qed.
 
 (* ---------- exit ---------- *)
-Definition has_mode (s : bstate) : Prop :=
-  lookup_env (attrs (inner s)) "mode" = Some (VStr "r") \/ lookup_env (attrs (inner s)) "mode" = Some (VStr "a").
-
 (* end_read() / end_write(); self._state = "idle" *)
 Lemma end_idle_code fuel prog s f b :
   prog = BUkvCall close_prog [] -> BRep s f b -> has_uk b = true -> has_mode s ->
@@ -281,4 +284,27 @@ Proof.
   destruct e as [x|]; cbn [bout_of bout_of_res]; cbv beta iota; rewrite (bexec_release fuel true s3 Hl3); cbv beta iota;
     change (bexec fuel BSkip (set_held s3 None)) with (set_held s3 None, BONormal); cbv beta iota;
     (split; [reflexivity|split; [exact (brep_held _ _ _ None E2)|reflexivity]]).
+Qed.
+
+(* ---------- entry and exit compose: a whole (empty) reading session, with no hypothesis about the mode attribute left ---------- *)
+Theorem reading_session_code fuel s f b hh1 hh2 bb0 rest :
+  (List.length f < fuel)%nat -> BRep s f b ->
+  f = (mk_header hh1 hh2 bb0 ++ rest)%list -> List.length hh1 = 16%nat -> len hh2 < 65536 -> len bb0 < 4294967296 ->
+  (has_uk b = false -> uk b = h0) -> (forall k, last (uk b) = Some k -> lookup (toc (uk b)) k <> None) ->
+  bheld s = None -> (has_inner s = true -> has_mode s) ->
+  let '(s1, o1) := bexec fuel reading_enter_prog s in
+  let '(s2, o2) := bexec fuel reading_exit_prog s1 in
+  let '(f1, b1, _) := b_begin_r f b in
+  let '(f2, b2, _) := b_end_r f1 b1 in
+  o1 = BONormal /\ o2 = BONormal /\ BRep s2 f2 b2 /\ bheld s2 = None /\ st b2 = SIdle.
+Proof.
+  intros Hfuel R Hf L1 L2 L0 Hh0 Hin Hl Hm.
+  pose proof (reading_enter_code fuel s f b hh1 hh2 bb0 rest Hfuel R Hf L1 L2 L0 Hh0 Hin Hl) as E.
+  destruct (bexec fuel reading_enter_prog s) as [s1 o1].
+  unfold b_begin_r in *. destruct (open_ f (uk b) MR) as [f1 h1].
+  destruct E as [E1 [_ [E3 [E4 E5]]]]. specialize (E5 Hm).
+  pose proof (reading_exit_code fuel s1 f1 _ E3 eq_refl E5 E4) as X.
+  destruct (bexec fuel reading_exit_prog s1) as [s2 o2]. unfold b_end_r in *.
+  destruct X as [X1 [_ [_ [X4 X5]]]].
+  split; [exact E1|]. split; [exact X1|]. split; [exact X4|]. split; [exact X5|reflexivity].
 Qed.
